@@ -812,6 +812,84 @@ func genExpr(rng *rand.Rand, depth, bits int, unsigned bool, ref func() (string,
 	return ls + sp + op + sp + rs, res, true
 }
 
+// genWildExpr: a [flags] expression with NO restriction on intermediate values: overflowing shifts, shift
+// counts at and beyond the width, operands at the extremes. What such an expression means is decided by
+// the Lean model of eval_expr.go (which rejects everything the Spec gives no in-range value to); the real
+// parser must give the same verdict and the same values.
+func genWildExpr(rng *rand.Rand, depth, bits int, unsigned bool, names []string) string {
+	atom := func() string {
+		switch rng.Intn(6) {
+		case 0:
+			if len(names) > 0 {
+				return names[rng.Intn(len(names))]
+			}
+		case 1:
+			return renderInt(rng, randInRange(rng, bits, true))
+		case 2:
+			return fmt.Sprint([]int{bits - 1, bits, bits + 1, 63, 64, 65}[rng.Intn(6)])
+		}
+		return renderInt(rng, big.NewInt(int64(rng.Intn(300))))
+	}
+	if depth == 0 {
+		return atom()
+	}
+	l := atom()
+	if rng.Intn(3) == 0 {
+		l = "(" + genWildExpr(rng, depth-1, bits, unsigned, names) + ")"
+	}
+	return l + " " + []string{"|", "&", "<<", ">>"}[rng.Intn(4)] + " " + genWildExpr(rng, depth-1, bits, unsigned, names)
+}
+
+func genWild(rng *rand.Rand, idx int) []byte {
+	var b strings.Builder
+	t := intTypes[rng.Intn(len(intTypes))]
+	fmt.Fprintf(&b, "[flags]\nenum W%d : %s {\n", idx, t.name)
+	var names []string
+	for j := 0; j < 1+rng.Intn(4); j++ {
+		n := fmt.Sprintf("M%d", j)
+		fmt.Fprintf(&b, "\t%s = %s;\n", n, genWildExpr(rng, rng.Intn(3), t.bits, t.unsigned, names))
+		names = append(names, n)
+	}
+	b.WriteString("}\n")
+	return []byte(b.String())
+}
+
+// runWild compares the real ReadFile with the model's parse on the same text: same verdict, same File.
+func runWild(text []byte) {
+	st("C15").Evaluations++
+	st("C15").distinct["wild"+hex.EncodeToString(text)] = struct{}{}
+	f, _, err := func() (f bebop.File, w []string, err error) {
+		defer func() {
+			if p := recover(); p != nil {
+				err = fmt.Errorf("panic: %v", p)
+			}
+		}()
+		return bebop.ReadFile(bytes.NewReader(text))
+	}()
+	real := "err"
+	if err == nil {
+		real = "ok " + filedump.File(f)
+	} else if strings.HasPrefix(err.Error(), "panic") {
+		real = "panic"
+	}
+	h := hex.EncodeToString(text)
+	m := ask("parse " + h + " 0")
+	st("C15").Distribution["wild/"+strings.Fields(real)[0]]++
+	if m == "declined" || strings.HasPrefix(m, "bad-op") {
+		return
+	}
+	if m != real {
+		fail("C15", "mismatch", "flags-wild", "wild", "", text, "ReadFile", abbrevS(m, 300), abbrevS(real, 300), "model and implementation disagree on a [flags] expression outside the in-range guard")
+	}
+}
+
+func abbrevS(s string, n int) string {
+	if len(s) > n {
+		return s[:n]
+	}
+	return s
+}
+
 func fixtures(repo string, dirs ...string) [][]byte {
 	var out [][]byte
 	for _, d := range dirs {
@@ -863,7 +941,11 @@ func main() {
 		_ = json.Unmarshal(b, &f)
 		text, _ := hex.DecodeString(f.TextHex)
 		fmt.Printf("replaying %s on:\n%s\n", f.Property, text)
-		runCase(c, schemaCase{stream: f.Stream, text: text, class: f.Class}, allOpts, "")
+		if f.Stream == "wild" {
+			runWild(text)
+		} else {
+			runCase(c, schemaCase{stream: f.Stream, text: text, class: f.Class}, allOpts, "")
+		}
 		for _, x := range fails {
 			fmt.Printf("FAIL %s %s [%s]: %s: expected %s observed %s (%s)\n", x.Property, x.Kind, x.Options, x.Op, x.Expected, x.Observed, x.Note)
 		}
@@ -930,9 +1012,13 @@ func main() {
 			st("C15").Samples = append(st("C15").Samples, fmt.Sprintf("%q", abbrev(sc.text, 300)))
 		}
 	}
+	// 4. [flags] expressions with overflowing intermediates: real parser vs the model of eval_expr.go
+	for i := 0; i < nOwn; i++ {
+		runWild(genWild(rng, i))
+	}
 	rules := map[string]string{
 		"C12": "streams: spec (Lean-generated schemas, all constructs, random layout), fixture (testdata/base, testdata/incompatible without imports; all 32 option sets), own (consts / enums / flags / opcodes). Each accepted schema x option set: the generated source must parse and type-check with go/types (source importer on /repo's bebop and iohelp), and every struct type's pointer must implement bebop.Record. distinct = distinct (schema, option set)",
-		"C15": "own stream: values built first (all 8 integer base types incl. extremes, hex and decimal, negative; floats in f/g/e form, integers, inf / -inf / nan; strings from escape pieces; bools; guids; [flags] expression trees to depth 3 over | & << >> with every intermediate in range; opcodes as hex / decimal / 4 characters), then rendered; the parsed File and the go/constant values of the type-checked generated package must equal them exactly; enum members must be typed constants of an enum type with the declared base type. spec stream: expected from the parsed File, whose dump must equal the Lean Spec's. distinct = distinct (schema, constant)",
+		"C15": "own stream: values built first (all 8 integer base types incl. extremes, hex and decimal, negative; floats in f/g/e form, integers, inf / -inf / nan; strings from escape pieces; bools; guids; [flags] expression trees to depth 3 over | & << >> with every intermediate in range; opcodes as hex / decimal / 4 characters), then rendered; the parsed File and the go/constant values of the type-checked generated package must equal them exactly; enum members must be typed constants of an enum type with the declared base type. spec stream: expected from the parsed File, whose dump must equal the Lean Spec's. wild stream: [flags] expression trees with overflowing shifts / out-of-range intermediates: real ReadFile vs the Lean model of eval_expr.go, same verdict and same File. distinct = distinct (schema, constant)",
 	}
 	res := map[string]interface{}{"engine": "gencheck", "seed": *seed, "tier": *tier}
 	outStats := map[string]*stat{}
